@@ -1,12 +1,22 @@
 #!/usr/bin/env python3
-"""prints the markdown catch matrix of /verif/seeded (used for DESIGN.md section 0.5)"""
-import glob, json, os
-rows = []
-for d in sorted(glob.glob(os.path.join(os.path.dirname(os.path.dirname(os.path.abspath(__file__))), "seeded", "*"))):
-    m = json.load(open(os.path.join(d, "meta.json")))
-    rows.append(m)
-print("| seeded change | what it breaks (needs) | reported by | rule(s) |")
-print("|---|---|---|---|")
-for m in rows:
-    print("| `%s` | %s | %s | %s |" % (m["id"], m["summary"].replace("|", "/"), ", ".join(m["detected_by"]) or "**not detected**",
-                                     ", ".join("`%s`" % r for r in m["reporting_rules"])))
+"""tools/seeded_table.py [--compact]  prints the markdown catch matrix of /verif/seeded (DESIGN.md 0.5, seeded/README.md)"""
+import glob, json, os, sys
+root = os.path.dirname(os.path.dirname(os.path.abspath(__file__)))
+rows = [json.load(open(os.path.join(d, "meta.json"))) for d in sorted(glob.glob(os.path.join(root, "seeded", "*"))) if os.path.exists(os.path.join(d, "meta.json"))]
+compact = "--compact" in sys.argv
+if compact:
+    print("| change | site / slip | reported by | first version of the check |")
+    print("|---|---|---|---|")
+    for m in rows:
+        s = m["summary"]
+        first = "missed — rule added" if ("Initially missed" in s) else ("caught by another property's check only — clause added" if "Initially caught only" in s or "Initially reported only" in s else "caught")
+        short = s.split(". Initially")[0].split(" (needs")[0]
+        if len(short) > 170:
+            short = short[:167] + "…"
+        print("| `%s` | %s | %s | %s |" % (m["id"], short.replace("|", "/"), ", ".join(m["detected_by"]) or "**none**", first))
+else:
+    print("| seeded change | what it breaks (what it needs to show) | reported by | rule(s) |")
+    print("|---|---|---|---|")
+    for m in rows:
+        print("| `%s` | %s | %s | %s |" % (m["id"], m["summary"].replace("|", "/"), ", ".join(m["detected_by"]) or "**not detected**",
+                                         ", ".join("`%s`" % r for r in m["reporting_rules"])))
